@@ -16,19 +16,19 @@ CHECKS = {
          "Exploration: all 384 structured operand combinations (exceptional cases P=Q, Q=-P, small-order sums, identity) are walked repeatedly with fresh representations, plus independent pairs; each result is checked for validity and equality with the complete addition law. Sampling of the prime-order parts, not enumeration.", "5 C02"),
  "C03": ("two-run leakage-trace equality monitors: (a) source-instrumented build generated from the working tree (branches, indices, shift counts, divisors, foreign-call arguments); (b) machine-level instruction/memory-address traces of the uninstrumented binary under valgrind lackey",
          "Exploration: for every constant-time entry point the recorded leakage trace under adversarial and uniform secret assignments must equal the trace of a reference assignment; a divergence names the function of the deciding event. The known finding K1 (checkInitialized) is matched by function and witness class and everything else is still a violation. The machine-level stage sees the assembly and whatever the compiler emitted; heap objects allocated inside a traced call are compared coarsely (see DESIGN 3.6). Both observe only the executions run; micro-architectural timing is out of reach.", "3.5, 5 C03"),
- "C04": ("reference-model monitor: Euler-criterion/ModSqrt decoding oracle vs. Point.SetBytes over constructed 32-byte classes and all other lengths",
+ "C04": ("reference-model monitor: Euler-criterion/ModSqrt decoding oracle vs. Point.SetBytes over constructed 32-byte classes and all other lengths; the same monitor also in the GOARCH=386 build",
          "Exploration: accept/reject and the decoded point are compared with the oracle over boundary, non-canonical, neighbour, bit-flip and uniform inputs and every wrong length up to 100. 2^256 inputs are sampled by class, not enumerated.", "5 C04"),
- "C05": ("reference-model monitor: RFC 8032 encoding of the model point vs. Bytes() over every construction route/projective scaling/history of the same point; round trips; a long-lived encoded object re-assigned through every assigning method",
+ "C05": ("reference-model monitor: RFC 8032 encoding of the model point vs. Bytes() over every construction route/projective scaling/history of the same point; round trips; a long-lived encoded object re-assigned through every assigning method; the same monitor also in the GOARCH=386 build",
          "Exploration: representation independence is exercised by encoding the same model point through 10 public-API routes per case and through different operation histories; sampled points.", "5 C05"),
  "C06": ("reference-model monitor: model equality vs. Point.Equal over related pairs (same point in two representations, torsion translates, negatives, shared coordinate, 8x8 small-order pairs)",
          "Exploration: both argument orders, all relations that share coordinates, exhaustive small-order pairs; sampled prime-order parts.", "5 C06"),
  "C07": ("reference-model monitor: math/big arithmetic mod l vs. Scalar operations; raw Montgomery limb bound; Equal on all 253 single-bit Montgomery differences; one object taken through multiplier use and every mutating method in turn",
          "Exploration: class x class operand pairs, multiple construction routes, every bit of Equal's OR-fold exercised in isolation; millions of evaluations, not l^3.", "5 C07"),
- "C08": ("reference-model monitor: integer comparison / mod l / RFC 8032 clamping vs. the scalar setters and Bytes over boundary-constructed byte strings and all lengths",
+ "C08": ("reference-model monitor: integer comparison / mod l / RFC 8032 clamping vs. the scalar setters and Bytes over boundary-constructed byte strings and all lengths; the same monitor also in the GOARCH=386 build",
          "Exploration: the accept boundary is probed at every byte position of the lexicographic comparison, wide reduction at every single bit and near 2^512, every wrong length; sampled otherwise.", "5 C08"),
- "C09": ("reference-model monitor + invariant assertion: math/big mod p vs. field operations on operands in reachable representations (incl. constructed limb-maximal ones) and over guided operation histories; limb bound 2^52 asserted on every output",
+ "C09": ("reference-model monitor + invariant assertion: math/big mod p vs. field operations on operands in reachable representations (incl. constructed limb-maximal ones) and over guided operation histories; limb bound 2^52 asserted on every output; the same monitor also in the purego and GOARCH=386 builds",
          "Exploration: only representations reachable through the public API are used, worst cases are constructed (limbs at 2^51+2^32, limb0 at 2^51+19*2^32) and approached by a magnitude-guided history search; the closed bound is approached, not enumerated.", "5 C09"),
- "C10": ("reference-model monitor: residues mod p vs. SetBytes/SetWideBytes/Bytes/Equal/IsNegative across representations; bit-for-bit Select/Swap check on raw limbs",
+ "C10": ("reference-model monitor: residues mod p vs. SetBytes/SetWideBytes/Bytes/Equal/IsNegative across representations; bit-for-bit Select/Swap check on raw limbs; the same monitor also in the purego and GOARCH=386 builds",
          "Exploration: all 19 non-canonical encodings, boundary residues in all 12 recipes, single bits of the wide input; sampled otherwise.", "5 C10"),
  "C11": ("differential monitor: every exported method x every set partition of {receiver, same-typed arguments} run with aliased vs. distinct storage; raw before/after snapshots of all non-written objects, slices and their neighbourhood; read-only arguments held in read-only (mprotect) memory during the distinct-storage run, so that even a store that is undone faults",
          "Exploration: the method x partition table (108 combinations) is enumerated completely and repeatedly with fresh values; argument values are sampled.", "5 C11"),
@@ -40,7 +40,7 @@ CHECKS = {
          "Exploration: all wrong lengths up to 100, content failures, four receiver states; sampled contents.", "5 C14"),
  "C15": ("enumerated misuse monitor: recover() around every exported Point operation x every subset of zero-value input positions, multi-scalar element positions and length pairs; zero-value pure receivers checked against the model",
          "Exploration: the (operation, position) table is enumerated completely; the other argument values are sampled.", "5 C15"),
- "C16": ("reference-model monitor: SQRT_RATIO_M1 written from the specification (Euler criterion + ModSqrt) vs. SqrtRatio over (u,v) classes x representations x receiver aliasing",
+ "C16": ("reference-model monitor: SQRT_RATIO_M1 written from the specification (Euler criterion + ModSqrt) vs. SqrtRatio over (u,v) classes x representations x receiver aliasing; the same monitor also in the purego and GOARCH=386 builds",
          "Exploration: all case classes of the contract incl. (0,0), (u,0), +-i ratios; sampled values.", "5 C16"),
  "C17": ("reference-model monitor: (1+y)/(1-y) in math/big and crypto/ecdh X25519 public keys vs. BytesMontgomery, also on long-lived objects re-assigned after an earlier encoding",
          "Exploration: whole-group points in all construction routes plus an independent second oracle; sampled.", "5 C17"),
